@@ -212,6 +212,7 @@ type plRun struct {
 	reclaim    bool // C04(b)
 	// classes
 	reordered, delBeforeInsert, evictBetweenDelete, raced bool
+	noPressure                                            bool // the costs of ALL writes of the case add up to at most MaxSize: no eviction can be a capacity eviction
 }
 
 func (r *plRun) now() int64 { return r.s.timerwheel.clock.NowNano() }
@@ -370,6 +371,9 @@ func (r *plRun) afterStep(op string, delKey int) *verifkit.Failure {
 				}
 				if !departedNow[in] {
 					return r.failf("notify/late-evict", "reason %d for key %d value %d, but the entry left the map in an earlier step", cl.reason, cl.key, cl.val)
+				}
+				if cl.reason == EVICTED && r.noPressure {
+					return r.failf("notify/wrong-reason", "EVICTED for key %d value %d (deadline %d, now %d) although every write of the case has the same cost and all keys together (at least %d) fit into MaxSize %d: nothing can have been evicted for capacity", cl.key, cl.val, in.deadline, r.now(), len(r.resident)+1, r.c.MaxSize)
 				}
 				if cl.reason == EXPIRED {
 					d := in.deadline
@@ -564,6 +568,26 @@ func execPipelineInner(c plCase, x *verifkit.Ctx, accounting, notify, reclaim bo
 		Listener: func(k, v int, reason RemoveReason) { r.calls = append(r.calls, plCall{k, v, reason}) },
 	})
 	r.s.mask = 0 // every hit goes to stripe 0: the 16th hit drains deterministically
+	// no-pressure cases: every write has the same cost (so there are no cost deltas whose out-of-order
+	// arrival could make the policy's transient view exceed the real total) and all keys together fit
+	uniform, c0 := true, 0
+	distinct := map[int]bool{}
+	for _, st := range c.Steps {
+		if st.Op == "set" || st.Op == "race" {
+			distinct[st.K] = true
+			cst := st.Cost
+			if cst < 1 {
+				cst = 1
+			}
+			if c0 == 0 {
+				c0 = cst
+			}
+			if cst != c0 {
+				uniform = false
+			}
+		}
+	}
+	r.noPressure = uniform && len(distinct)*c0 <= c.MaxSize
 	if c.Pending < 1 {
 		c.Pending = 1
 	}
@@ -674,6 +698,7 @@ func execPipelineInner(c plCase, x *verifkit.Ctx, accounting, notify, reclaim bo
 			keys = append(keys, k)
 		}
 		sort.Ints(keys)
+		r.noPressure = false // the follow-up writes raise costs
 		for _, k := range keys {
 			in := r.resident[k]
 			nc := int(in.ptr.weight.Load())%c.MaxSize + 1
